@@ -83,7 +83,7 @@ func c10Prestates(sb *sandbox, shape hshape, depth int) []prestate {
 					sb.materialise(shape, cur.st)
 					o := sb.runInproc(shape, op)
 					sb.readBack(shape, &n)
-					judgeRun(shape, cur.st, o, &n, true)
+					judgeRun(shape, cur.st, o, &n, c02All)
 				} else {
 					applyEdit(&n, op)
 				}
@@ -307,7 +307,7 @@ func c10ApplyFault(c *core.Ctx, sb *sandbox, k c10case, pre hstate, points []tra
 		_ = os.WriteFile(cachePath, []byte(tornContent[:tornLen]), 0o666)
 		sb.readBack(k.Shape, &post)
 	}
-	judgeRun(k.Shape, pre, obs, &post, false) // model update only: nothing is demanded of the killed run itself
+	judgeRun(k.Shape, pre, obs, &post, c02None) // model update only: nothing is demanded of the killed run itself
 	return post, obs, true
 }
 
@@ -433,7 +433,7 @@ func c10RunCont(c *core.Ctx, sb *sandbox, k c10case, post hstate, via string) (v
 				return
 			}
 		}
-		vd := judgeRun(k.Shape, before, o, &st, false)
+		vd := judgeRun(k.Shape, before, o, &st, c02None)
 		skips += vd.Skips
 		for _, v := range vd.Violations {
 			if v.Property != "C01" {
@@ -509,7 +509,7 @@ func c10Replay(c *core.Ctx, v core.Violation) []core.Violation {
 		o := sb.runInproc(k.Shape, op)
 		pre := st.clone()
 		sb.readBack(k.Shape, &st)
-		judgeRun(k.Shape, pre, o, &st, true)
+		judgeRun(k.Shape, pre, o, &st, c02All)
 	}
 	tracePath := filepath.Join(sb.Root, "trace")
 	sb.materialise(k.Shape, st)
